@@ -49,6 +49,8 @@ def run(ctx):
                     ctx.violation(f"L[{i}][{j}] differs from sum_e x_e s_ei s_ej", S.small_req(s), expected=float(ex["L"][i][j]), observed=float(lm[i][j])); break
         sy = kin.symanzik(c["edges"], x, r["ext_mom"], r["masses"], c["D"])
         tol = SC.tol_cond(nl, ex["cond"])
+        if tol > Fraction(1, 1000):
+            ctx.count("cancellation_dominates(cond)_skipped"); continue
         u = Fraction(b2f(a["u"]))
         rel = abs(u - sy["U"]) / sy["U"]
         ctx.extra["worst_error_over_tolerance"] = max(ctx.extra.get("worst_error_over_tolerance", 0.0), float(rel / tol))
